@@ -6,9 +6,10 @@ _ST_TT = "swcgeom/transforms/tree.py"
 _ST_RES = "((List Int) × (List Int)) × (List Int)"
 
 
-# --- a LIST OF CALLBACKS held in an attribute (`self.callbacks`): a pure parameter `callbacks : List (σ → A → σ)` of state-passing callables over the
-# callbacks' common state `v.cbs`; `for cb in <list>: cb(arg)` calls every one of them, in list order, with the same argument (Py.callAll).
-# Declared by `callbacks={"<source text of the list>": ("(callbacks : List (σ → A → σ))", 1, "Unit")}`.
+# --- a LIST OF CALLBACKS held in an attribute (`self.callbacks`): a pure parameter `callbacks : List (σ → A → Option σ)` of state-passing callables
+# (`none` = the callable raised) over the callbacks' common state `v.cbs`; `for cb in <list>: cb(arg)` calls every one of them, in list order, with
+# the same argument and stops at the first that raises (Py.callAll).
+# Declared by `callbacks={"<source text of the list>": ("(callbacks : List (σ → A → Option σ))", 1, "Unit")}`.
 def _cblist_for(tr, s):
     if not isinstance(s, ast.For) or s.orelse or not isinstance(s.target, ast.Name):
         return None
@@ -25,7 +26,8 @@ def _cblist_for(tr, s):
         raise Untranslatable(f"{tr.spec.lean}: the argument of `{cb}(...)` mentions the callback")
     steps, code, _ = tr.tr(arg)
     lean_cb = tr.spec.callbacks[key][0].split()[0].strip("(")
-    return tr.chain(steps, f".next {{ v with cbs := Py.callAll {lean_cb} v.cbs {code} }}")
+    n = tr.bindname()
+    return tr.chain(steps + [f"Py.bind (Py.callAll {lean_cb} v.cbs {code}) fun {n} =>"], f".next {{ v with cbs := {n} }}")
 
 
 STMT_HOOKS.append(_cblist_for)
@@ -70,7 +72,7 @@ def _num_literal(tr, e, want):
 
 EXPR_HOOKS.append(_num_literal)
 
-_ST_CBS = {"self.callbacks": ("(callbacks : List (σ → List Int → σ))", 1, "Unit")}
+_ST_CBS = {"self.callbacks": ("(callbacks : List (σ → List Int → Option σ))", 1, "Unit")}
 _ST_NODE = "Node@n.attach"
 spec(lean="tip_leave", module="AlgoShortTip", file=_ST_TT, cls="CutShortTipBranch", func="_leave",
      params=["ids", "pids", "thre", "n", "children"], tparams=["σ"], num_tparams=["K"], callbacks=_ST_CBS,
@@ -83,3 +85,76 @@ spec(lean="tip_leave", module="AlgoShortTip", file=_ST_TT, cls="CutShortTipBranc
      doc="`swcgeom/transforms/tree.py::CutShortTipBranch._leave` (`n` is a node handle of the tree with the columns `ids`, `pids`; lengths over the "
          "numeric type `K`; `self.thre` is the parameter `thre`, `n.distance(child)` the pure parameter `dist n child`, `self.callbacks` the list "
          "`callbacks` of state-passing callables; a `Tree.Branch` is the list of its node ids)")
+
+
+# --- `<callback list>.append(<closure>)` … `T.traverse(leave=self.<method>)` … `<callback list>.pop()`: while the closure is on the list, the callables'
+# common state is the pair (state of the callables that were there before, captured variables of the closure): the earlier callables act on the first
+# component (Py.liftCbs), the closure on the second (Py.closureCb).  The method handed to the traversal is its translation (declared in
+# `closures={"self.<method>": lean name}`); its leading parameters are the caller's variables of the same names, its last two the traversal's
+# (node, children); the traversal threads the callables' state.
+def _cblist_push_pop(tr, s):
+    if not (isinstance(s, ast.Expr) and isinstance(s.value, ast.Call) and isinstance(s.value.func, ast.Attribute) and not s.value.keywords):
+        return None
+    call = s.value
+    key = ast.unparse(call.func.value)
+    if key not in tr.spec.callbacks or not tr.spec.callbacks[key][0].split(":")[1].strip().startswith("List"):
+        return None
+    stack = tr.__dict__.setdefault("cb_pushed", [])
+    if call.func.attr == "append" and len(call.args) == 1 and isinstance(call.args[0], ast.Lambda) and "<lambda>" in tr.spec.closures:
+        callee = by_lean_global[tr.spec.closures["<lambda>"]]
+        if stack or callee.callbacks or callee.fuel or len(callee.params) != 1:
+            raise Untranslatable(f"{tr.spec.lean}: `{ast.unparse(s)}`")
+        stack.append(callee)
+        return "Py.skip"
+    if call.func.attr == "pop" and not call.args and stack:
+        stack.pop()
+        return "Py.skip"
+    raise Untranslatable(f"{tr.spec.lean}: `{ast.unparse(s)}` on a callback list")
+
+
+def _traverse_method(tr, e, want):
+    if not (isinstance(e, ast.Call) and isinstance(e.func, ast.Attribute) and e.func.attr == "traverse" and not e.args
+            and [k.arg for k in e.keywords] == ["leave"]):
+        return None
+    T = ast.unparse(e.func.value)
+    mkey = ast.unparse(e.keywords[0].value)
+    if T not in tr.spec.tree_cols or mkey not in tr.spec.closures or not mkey.startswith("self."):
+        return None
+    stack = tr.__dict__.get("cb_pushed", [])
+    callee = by_lean_global[tr.spec.closures[mkey]]
+    cols = tr.spec.tree_cols[T]
+    if not tr.spec.fuel or len(stack) != 1 or list(callee.callbacks) != list(tr.spec.callbacks) or callee.tparams != tr.spec.tparams \
+            or callee.num_tparams != tr.spec.num_tparams or callee.fparams != tr.spec.fparams or not callee.fuel:
+        raise Untranslatable(f"{tr.spec.lean}: `{ast.unparse(e)}`")
+    lam = stack[0]
+    lead = callee.params[:-2]
+    for pn in lead:
+        if parse_type(callee.vars[pn]) != tr.var_type(pn):
+            raise Untranslatable(f"{tr.spec.lean}: parameter `{pn}` of `{mkey}` is not a variable of the caller of the same type")
+    cbname = tr.spec.callbacks[list(tr.spec.callbacks)[0]][0].split()[0].strip("(")
+    fps = " ".join(b.split()[0].strip("(") for b in tr.spec.fparams)
+    caps = lam.captures
+    capst = "(" + ", ".join(f"v.{lname(c)}" for c in caps) + ")"
+    cbs2 = f"(Py.liftCbs {cbname} ++ [Py.closureCb {lam.lean}])"
+    leave = (f"(Py.wrapL (fun s n ch => {callee.lean} {cbs2} {fps} fuel {' '.join('v.' + lname(p) for p in lead)} n ch s))")
+    n = tr.bindname()
+    back = " let v := { v with cbs := " + n + ".1.1, " + ", ".join(f"{lname(c)} := {proj(n + '.1.2', k, len(caps))}" for k, c in enumerate(caps)) + " };"
+    topo = f"(v.{lname(cols['id'])}, v.{lname(cols['pid'])})"
+    step = f"Py.bind (Py.unwrapCb (traverse_dfs (Py.wrapE Py.noEnter) {leave} fuel {topo} (0 : Int) (some (v.cbs, {capst})))) fun {n} =>{back}"
+    return [step], f"{n}.2", parse_type(callee.ret)
+
+
+STMT_HOOKS.append(_cblist_push_pop)
+EXPR_HOOKS.append(_traverse_method)
+
+spec(lean="tip_record", module="AlgoShortTip", file=_ST_TT, cls="CutShortTipBranch", func="__call__", nested="<lambda>",
+     params=["br"], captures=["removals", "ids"], tree_cols={"x": {"id": "ids"}},
+     vars={"br": "List Node@x", "removals": "List Int", "ids": "List Int"}, ret="Unit",
+     doc="`swcgeom/transforms/tree.py::CutShortTipBranch.__call__`, the `lambda br: removals.append(br[1].id)` it puts on the callback list (a "
+         "`Tree.Branch` is the list of its node handles)")
+spec(lean="cut_short_tip", module="AlgoShortTip", file=_ST_TT, cls="CutShortTipBranch", func="__call__",
+     params=["ids", "pids", "thre"], tparams=["σ"], num_tparams=["K"], callbacks=_ST_CBS, fparams=["(dist : Int → Int → K)"],
+     tree_cols={"x": {"id": "ids", "pid": "pids"}}, closures={"<lambda>": "tip_record", "self._leave": "tip_leave"},
+     vars={"ids": "List Int", "pids": "List Int", "thre": "K", "removals": "List Int"}, ret=_ST_RES, fuel=True,
+     doc="`swcgeom/transforms/tree.py::CutShortTipBranch.__call__` (the tree is its columns `ids`, `pids`; `callbacks` is `self.callbacks` on entry: "
+         "what `__init__` put there; the result stands for the `Tree` built from it)")
